@@ -30,14 +30,14 @@ type Record struct {
 
 // RuleInfo documents a rule in the evidence.
 type RuleInfo struct {
-	Text       string `json:"text"`
-	Kind       string `json:"kind"`            // "instance-table" or "universe"
-	Floor      int    `json:"floor,omitempty"` // minimum number of instances confirmed by reading (instance-table rules)
-	HandCount  int    `json:"hand_count,omitempty"`
-	Instances  int    `json:"instances"`
-	Discharged int    `json:"discharged"`
-	Findings   int    `json:"findings"`
-	Undecided  int    `json:"undecided"`
+	Text       string         `json:"text"`
+	Kind       string         `json:"kind"`            // "instance-table" or "universe"
+	Floor      int            `json:"floor,omitempty"` // minimum number of instances confirmed by reading (instance-table rules)
+	HandCount  int            `json:"hand_count,omitempty"`
+	Instances  int            `json:"instances"`
+	Discharged int            `json:"discharged"`
+	Findings   int            `json:"findings"`
+	Undecided  int            `json:"undecided"`
 	ByRule     map[string]int `json:"discharged_by,omitempty"`
 }
 
